@@ -5,8 +5,9 @@
     harness generates dyadic set-ups whose float arithmetic is exact).
 
     Case layout (a rational = numerator, denominator):
-      start stop dt rev period cont  dtdx(2) lo(2) hi(2) life  ncls cfac(2)*ncls
+      start stop dt rev period cont  dtdx(2) lo(2) hi(2) life  ncls cfac(2)*ncls  nland cell*nland
                                           -- cont = continuous-release frequency in seconds, 0 = discrete release
+                                          -- the land cells along the particle line (whole land columns of the grid)
       nfiles { nrec { time u(2) scalar(2) }*nrec }*nfiles
       nrows { time mult tag xcode class }*nrows            -- x = xcode / 1024
       nrecords { step count { pid x(2) age temp(2) }*count }*nrecords
@@ -22,6 +23,14 @@ Fixpoint p_qs (n : nat) (l : list Z) : list Q * list Z :=
   | S k => match l with
            | a :: b :: r => let '(q, r') := p_qs k r in (mkQ a b :: q, r')
            | _ => ([], [])
+           end
+  end.
+Fixpoint p_zs (n : nat) (l : list Z) : list Z * list Z :=
+  match n with
+  | O => ([], l)
+  | S k => match l with
+           | a :: r => let '(q, r') := p_zs k r in (a :: q, r')
+           | [] => ([], [])
            end
   end.
 Fixpoint p_recs (n : nat) (l : list Z) : list record * list Z :=
@@ -77,7 +86,10 @@ Fixpoint check_recs (rs : list (rec pv)) (l : list Z) : option (list Z) :=
 Definition parse_setup (c : list Z) : option (setup * list Z) :=
   match c with
   | st :: sp :: d :: rv :: per :: cf0 :: dn :: dd :: lon :: lod :: hin :: hid :: life :: ncls :: r =>
-      let '(cf, r1) := p_qs (Z.to_nat ncls) r in
+      let '(cf, r0) := p_qs (Z.to_nat ncls) r in
+      match r0 with
+      | nland :: r0' =>
+      let '(land, r1) := p_zs (Z.to_nat nland) r0' in
       match r1 with
       | nf :: r2 =>
           let '(files, r3) := p_files (Z.to_nat nf) r2 in
@@ -87,9 +99,12 @@ Definition parse_setup (c : list Z) : option (setup * list Z) :=
               Some ({| s_tk := {| start := st; stop := sp; dt := d; ref := 0; rev := negb (rv =? 0) |};
                        s_files := files; s_tab := rows;
                        s_cont := (if cf0 =? 0 then None else Some cf0); s_period := per; s_dtdx := mkQ dn dd;
-                       s_lo := mkQ lon lod; s_hi := mkQ hin hid; s_life := life; s_cfac := cf |}, r5)
+                       s_lo := mkQ lon lod; s_hi := mkQ hin hid; s_life := life; s_cfac := cf;
+                       s_land := land |}, r5)
           | [] => None
           end
+      | [] => None
+      end
       | [] => None
       end
   | _ => None
